@@ -100,6 +100,18 @@ let cmd_sim toks =
         out "P"; List.iter (fun v -> out (hx v)) st.vs_p;
         out "V"; List.iter (fun v -> out (hx v)) st.vs_vols; out "DIV"; out (if st.vs_divided then "1" else "0")
       | OutOfFuel -> out "OUTOFFUEL" | Fault w -> fault w)
+   | "dvssa" ->
+     let (vm, r) = pop_volmodel r in let (v0, r) = pop_fl r in let (ncols, _) = pop_int r in
+     let nrx = List.length s.sm_if.si_props in
+     let q = q_make fl 0.0 (nat_of_int nrx) (nat_of_int ncols) s.sm_dt 0.0 in
+     (match dvssa_simulate fl pi2 fuel gfuel s vm v0 q ts u O with
+      | Done st -> show_rows buf st.dv_rows; out "POS"; out (string_of_int (int_of_nat st.dv_pos));
+        out "P"; List.iter (fun v -> out (hx v)) st.dv_p;
+        out "V"; List.iter (fun v -> out (hx v)) st.dv_vols; out "DIV"; out (if st.dv_divided then "1" else "0");
+        out "Q"; out (hx st.dv_q.q_next);
+        for off = 0 to ncols - 1 do for rr = 0 to nrx - 1 do
+          out (hx (q_pending 0.0 st.dv_q (nat_of_int off) (nat_of_int rr))) done done
+      | OutOfFuel -> out "OUTOFFUEL" | Fault w -> fault w)
    | _ -> raise (Parse ("sim kind " ^ kind)));
   Buffer.contents buf
 
